@@ -29,6 +29,13 @@ changes, never a change of the property): %s - see the last column.
 
 **Not caught** (recorded, with the reason in the last column and in section 10): %s.
 
+Last regression over all kept changes (`tools/reseed.sh`, every patch applied to a scratch
+worktree of `/repo` HEAD - or of the base it was confirmed against when a later `fix:` commit
+conflicts with it - and the quick check of its property run against it): 226 of 240 reported
+by the check of their own property; of the other 14, six are reported by the check of another
+property (N05-2, P01-1, Q07-2, R01-1, R07-1, R08-1 - named in the table), two are made
+harmless by a later repair of `/repo` (N15-2, P15-2) and six are the ones listed as not caught.
+
 | seed | change | caught by | violation key | what the check lacked at first |
 |---|---|---|---|---|
 ''' % (len(rows), len(missed), ', '.join(missed), ', '.join(notcaught) or 'none')
